@@ -35,17 +35,24 @@ for _d in DAYS:
 
 
 # --------------------------------------------------------------------------- calendar oracle
-def oracle_month_hours(i: int) -> int:
-    """Hours in simulated month i (1-based, repeating non-leap 2019) via datetime."""
+def oracle_month_hours(i: int, year: int = 2019) -> int:
+    """Hours in simulated month i (1-based) of the calendar year `year` repeated (the tool uses
+    years[0] for every simulated year), via datetime."""
     m = (i - 1) % 12 + 1
-    a = dt.datetime(2019, m, 1)
-    b = dt.datetime(2019, m + 1, 1) if m < 12 else dt.datetime(2020, 1, 1)
+    a = dt.datetime(year, m, 1)
+    b = dt.datetime(year, m + 1, 1) if m < 12 else dt.datetime(year + 1, 1, 1)
     return int((b - a).total_seconds() // 3600)
 
 
-def oracle_month_end(i: int) -> int:
-    """Last hour of simulated month i = hours elapsed in the first i months of repeating 2019."""
-    return sum(oracle_month_hours(j) for j in range(1, i + 1))
+_OME: dict = {}
+
+
+def oracle_month_end(i: int, year: int = 2019) -> int:
+    """Last hour of simulated month i = hours elapsed in the first i months of repeating `year`."""
+    key = (i, year)
+    if key not in _OME:
+        _OME[key] = sum(oracle_month_hours(j, year) for j in range(1, i + 1))
+    return _OME[key]
 
 
 # --------------------------------------------------------------------------- physical parameter sets
@@ -205,7 +212,14 @@ def raw_of_spec(spec):
     return raw
 
 
+def leap_raw(raw):
+    """8784-hour version of an 8760-hour profile: 29 February repeats 28 February."""
+    return raw[:1416] + raw[1392:1416] + raw[1416:]
+
+
 def raw_of_case(case):
+    if case.get("hours") == 8784:
+        return leap_raw(raw_of_case({k: v for k, v in case.items() if k != "hours"}))
     if case.get("raw") is not None:
         return [float(x) for x in case["raw"]]
     if case.get("spec") is not None:
@@ -305,7 +319,7 @@ def full_line(case, phys, raw=None):
     tpk, rb, g = g_params(phys)
     raw = raw if raw is not None else raw_of_case(case)
     ends = ",".join(str(e) for e in case["ends"])
-    return f"hyb.full {YEAR} {case.get('start', 1)} {ends} {core.rs(tpk)} {core.rs(rb)} {csv(g)} {csv(raw)}"
+    return f"hyb.full {case.get('year', YEAR)} {case.get('start', 1)} {ends} {core.rs(tpk)} {core.rs(rb)} {csv(g)} {csv(raw)}"
 
 
 def parse_seq(s: str):
@@ -684,3 +698,90 @@ def month_table(monthly_rows):
     """rows of the implementation -> list of dicts (index 0 = January)."""
     keys = ["cl", "hl", "pcl", "phl", "avgcl", "avghl", "dayc", "dayh", "dcl", "dhl"]
     return [dict(zip(keys, r)) for r in monthly_rows]
+
+
+# --------------------------------------------------------------------------- call-history stream
+def history_object(item, phys):
+    """One real HybridLoad with an explicit `years` list -> JSON-able arrays (or the exception name)."""
+    from ghedesigner.ground_loads import HybridLoad
+    from ghedesigner.simulation import SimulationParameters
+
+    eq, rn = borehole(phys)
+    raw = raw_of_case(item["case"])
+    sim = SimulationParameters(1, item["months"], 35.0, 5.0, 135.0, 60.0)
+    try:
+        with warnings.catch_warnings(), ghelib.quiet():
+            warnings.simplefilter("ignore")
+            hl = HybridLoad(list(raw), eq, rn, sim, years=list(item["years"]))
+    except Exception as e:  # noqa: BLE001
+        return {"raise": type(e).__name__}
+    return {"hour": [float(x) for x in hl.hour], "load": [float(x) for x in hl.load],
+            "monthly": [[float(getattr(hl, f)[i]) for f in MONTHLY_FIELDS] for i in range(1, 13)]}
+
+
+def history_run(seq, phys):
+    """Execute a call sequence in THIS process, in order.  Items:
+    {"op": "hybrid", "years": [y], "months": n, "case": {...}}  |  {"op": "cal", "month": m, "year": y}"""
+    from ghedesigner.ground_loads import first_month_hour, last_month_hour, monthdays
+
+    out = []
+    for it in seq:
+        if it["op"] == "cal":
+            out.append({"cal": [int(monthdays(it["month"], it["year"])), int(first_month_hour(it["month"], [it["year"]])),
+                                int(last_month_hour(it["month"], [it["year"]]))]})
+        else:
+            out.append(history_object(it, phys))
+    return out
+
+
+def history_subprocess(seq, phys, timeout=900):
+    """Run a call sequence in a FRESH interpreter (no state left over from anything this check did)."""
+    import json
+    import subprocess
+    import sys
+
+    r = subprocess.run([sys.executable, __file__, "--history"], input=json.dumps({"seq": seq, "phys": phys}),
+                       capture_output=True, text=True, timeout=timeout)
+    if r.returncode != 0:
+        return {"error": (r.stderr or r.stdout)[-400:]}
+    return {"results": json.loads(r.stdout.splitlines()[-1])}
+
+
+HISTORY_KINDS = ["mixed", "atlanta", "first_day", "last_day", "same_day", "zero_months", "heating_only", "one_sided_months"]
+
+
+def gen_histories(rng: random.Random, n: int):
+    """Call sequences mixing years=[2019] / [2020] (leap, 8784-hour profile) / [2021], horizons and
+    direct calendar-helper calls, in varying order.  The first ones are fixed boundary sequences."""
+    def obj(year, months, kind=None, pseed=None):
+        c = {"kind": kind or rng.choice(HISTORY_KINDS), "pseed": rng.randrange(1 << 30) if pseed is None else pseed}
+        if year % 4 == 0:
+            c["hours"] = 8784
+        c["year"] = year
+        return {"op": "hybrid", "years": [year], "months": months, "case": c}
+
+    seqs = [
+        [obj(2020, 24, "atlanta", 1), obj(2019, 30, "atlanta", 1)],
+        [obj(2019, 12, "mixed", 2), obj(2020, 13, "mixed", 2), obj(2021, 25, "mixed", 2), obj(2019, 12, "mixed", 2)],
+        [{"op": "cal", "month": 2, "year": 2020}, {"op": "cal", "month": 2, "year": 2019}, {"op": "cal", "month": 14, "year": 2021},
+         {"op": "cal", "month": 14, "year": 2020}, obj(2019, 14, "first_day", 3)],
+        [obj(2021, 36, "same_day", 4), obj(2020, 36, "same_day", 4), obj(2019, 36, "same_day", 4), obj(2020, 12, "same_day", 4)],
+    ]
+    while len(seqs) < n:
+        seq = []
+        for _ in range(rng.randint(3, 6)):
+            if rng.random() < 0.25:
+                seq.append({"op": "cal", "month": rng.randint(1, 40), "year": rng.choice([2019, 2020, 2021])})
+            else:
+                seq.append(obj(rng.choice([2019, 2019, 2020, 2021]), rng.choice([1, 2, 3, 11, 12, 13, 14, 23, 24, 25, 30, 36, 59, 60, 61])))
+        seqs.append(seq)
+    return seqs[:n]
+
+
+if __name__ == "__main__":
+    import json
+    import sys
+
+    if "--history" in sys.argv:
+        job = json.loads(sys.stdin.read())
+        print(json.dumps(history_run(job["seq"], job["phys"])))
